@@ -129,6 +129,7 @@ class FunctionAnalysis:
         # running pointers: non-escaping local pointer variables that only ever point into one fixed-size array (`p = buf; ... *p++ = x`); the cell's
         # value is the byte offset from the start of that array
         self.pcells = pointer_cells(self.P, fn)
+        self._pparams = param_pointer_slots(fn)
         for pid in self.pcells:
             self.cells[pid] = fn.insts[pid]
         self._stable = {}
@@ -203,7 +204,12 @@ class FunctionAnalysis:
                 return st.frozen[i.id]
             if c is not None:
                 return LF(0, {("cell",) + c: 1})
+            if self.pcells and i["ptr"].get("k") == "inst" and i["ptr"]["id"] in self._pparams:
+                return LF(0, {_addr_atom(("P", i["ptr"]["id"])): 1})
             bits = tybits(i["ty"])
+            af = self._affine_table(i, st, depth)
+            if af is not None:
+                return af
             cr = self._const_table_range(i)
             if cr is not None:
                 return LF(0, {self._atom(o, "ctab", cr[0], cr[1]): 1})
@@ -287,6 +293,29 @@ class FunctionAnalysis:
             if rr is not None:
                 return LF(0, {self._atom(o, "ret", rr[0], rr[1]): 1})
         return LF(0, {self._atom(o, "val", *self._tyrange(i["ty"])): 1})
+
+    def _affine_table(self, ld, st, depth):
+        """`table[i]` over a constant array of integers whose entries are a*i + b (e.g. header bytes by address depth {4, 5, 6, 7}): the linear form
+        a*i + b, valid while i is known to lie inside the table"""
+        g = self.fn.resolve(ld["ptr"])
+        if g is None or g.op != "getelementptr" or g["base"].get("k") != "global" or len(g["idx"]) != 1 or g["off"] != 0:
+            return None
+        gd = self.P.globals.get(g["base"]["name"])
+        if not gd or not gd.get("const") or not isinstance(gd.get("init"), list) or len(gd["init"]) < 2:
+            return None
+        vals = gd["init"]
+        if not all(isinstance(v, int) for v in vals):
+            return None
+        a = vals[1] - vals[0]
+        if any(vals[k] != vals[0] + a * k for k in range(len(vals))):
+            return None
+        il = self.lf(g["idx"][0]["v"], st, depth + 1)
+        if il is None:
+            return None
+        iv = self.iv_lf(il, st)
+        if iv[0] < 0 or iv[1] > len(vals) - 1:
+            return None
+        return il.scale(a).add(LF(vals[0]))
 
     def _const_table_range(self, ld):
         """range of a value loaded from a constant table (array of integers or of structs of integers) at a variable row: the
@@ -1332,6 +1361,29 @@ def _array_object(P, fn, o):
     return None
 
 
+def param_pointer_slots(fn, _cache={}):
+    """alloca ids of pointer parameters that are spilled once and never reassigned or handed out by address"""
+    ck = (id(fn), fn.name)
+    if ck in _cache:
+        return _cache[ck]
+    out = set()
+    for a in fn.allocas().values():
+        if not (a["aty"].endswith("*") and a.get("param")):
+            continue
+        ok, nst = True, 0
+        for i in fn.all_insts():
+            for k, o in operands(i):
+                if o.get("k") == "inst" and o["id"] == a.id:
+                    if i.op == "store" and k == "ptr":
+                        nst += 1
+                    elif not (i.op == "load" and k == "ptr"):
+                        ok = False
+        if ok and nst == 1:
+            out.add(a.id)
+    _cache[ck] = out
+    return out
+
+
 def pointer_cells(P, fn, _cache={}):
     """alloca id -> (array key, array description) for the local pointer variables that are only read and written directly and whose every
     assigned value is an offset from one and the same fixed-size array (or from such a variable)"""
@@ -1344,11 +1396,18 @@ def pointer_cells(P, fn, _cache={}):
             if o.get("k") == "inst" and o["id"] in cand and not (i.op in ("load", "store") and k == "ptr"):
                 cand.pop(o["id"], None)
 
+    pparams = param_pointer_slots(fn)
+
     def origin(o):
         for _ in range(10):
             ao = _array_object(P, fn, o)
             if ao is not None:
                 return ("obj",) + ao
+            if o.get("k") == "inst" and fn.insts[o["id"]].op == "load" and fn.insts[o["id"]]["ptr"].get("k") == "inst" and \
+                    fn.insts[o["id"]]["ptr"]["id"] in pparams:
+                # a buffer handed in by the caller: its size is not known here, but a pointer that walks it has an offset all the same
+                aid_ = fn.insts[o["id"]]["ptr"]["id"]
+                return ("obj", ("P", aid_), ("param", fn.insts[aid_].get("var", "%%%d" % aid_), None))
             if o.get("k") != "inst":
                 return None
             i = fn.insts[o["id"]]
@@ -1436,7 +1495,7 @@ def array_accesses(P, fn):
                     break
             if o.get("k") == "inst" and fn.insts[o["id"]].op == "load":
                 src = fn.insts[o["id"]]["ptr"]
-                if src.get("k") == "inst" and src["id"] in pc:
+                if src.get("k") == "inst" and src["id"] in pc and pc[src["id"]][1][0] != "param":
                     out.append((i, pc[src["id"]][1]))
     return out
 
